@@ -217,6 +217,29 @@ def run(rep: Report) -> None:
                 n3 += 1
                 rep.fail("R17.3", f"{f}:{w.location}", f"{f} (reachable from parsing: {' -> '.join(reach.path_to(f)[-4:])}) writes "
                          f"{w.location}: a parse - even a rejected one - changes the registered names/symbols", fi.where(w.node))
+    # an import executed on the parse path runs a whole module of declarations
+    for f in sorted(reach.reached):
+        fi = prog.functions[f]
+        for node in Resolver._own_nodes(fi.node):
+            mods: List[str] = []
+            if isinstance(node, ast.Import):
+                mods = [a.name for a in node.names]
+            elif isinstance(node, ast.ImportFrom):
+                mods = [("." * node.level) + (node.module or "") + "." + a.name for a in node.names] if not node.module or node.level else [node.module]
+                if node.level and node.module is None:
+                    mods = [a.name for a in node.names]
+                elif node.level:
+                    mods = [node.module or ""]
+            elif isinstance(node, ast.Call) and ast.unparse(node.func) in ("importlib.import_module", "import_module", "__import__") and node.args \
+                    and isinstance(node.args[0], ast.Constant):
+                mods = [str(node.args[0].value)]
+            for m in mods:
+                short = m.replace("measured.", "").lstrip(".")
+                if short in prog.modules and short not in ("", "_parser", "parsing", "formatting", "compat", "conversions") and not short.startswith("_"):
+                    n3 += 1
+                    rep.fail("R17.3", f"{f}:import {short}", f"{f} imports measured.{short} while parsing: the first input that reaches it (e.g. a rejected "
+                             "symbol) registers every unit that module declares - a rejected parse changes the registries, and exact symbols it adds "
+                             "shadow prefix splits (hh: hecto-hour before, hand after)", fi.where(node))
     if n3 == 0:
         rep.ok("R17.3", "parse-path", note=f"{len(reach.reached)} functions, no naming write on a feasible arm")
     for bad in ("Unit.alias:named", "Unit.define", "Unit.derive", "Dimension.define", "Dimension.derive"):
